@@ -4,12 +4,12 @@ CONSTANTS Ctx <- McCtxTerm
  Gas <- McGas
  Devs = {}
  Kinds = {"xfer", "vote", "reg", "topup", "unreg", "setrew"}
- From = {"a2"}
- XTo = {"a1"}
+ From = {"M1"}
+ XTo = {"a4"}
  XAmt = {100}
  Payers = {}
- Voters = {"a1", "M1", "I"}
- Cands = {"a1", "a3", "M1"}
+ Voters = {"M1", "a4"}
+ Cands = {"M1", "a4", "a3"}
  RegAmt = {300}
  AFrom = {}
  ATo = {}
@@ -21,7 +21,7 @@ CONSTANTS Ctx <- McCtxTerm
  RewTerms = {0}
  RewAmt = {500}
  EmptyOK = TRUE
- MaxTx = 3
+ MaxTx = 2
  MaxBlk = 3
  MaxTot = 3
 VIEW View
